@@ -28,6 +28,7 @@ import warnings
 from harness import tasks as T
 from harness.apps import inject_status, make_app, rctx, flush
 from harness.common import Ctx, LeanDriver, lean_stage, thorough_rebuild, tok
+from harness.translate import programs as trp
 from harness.translate import status as tr
 
 THEOREMS = [
@@ -35,6 +36,8 @@ THEOREMS = [
     "ready_eq_definition", "wait_graph_invariants", "raw_empty_wait_breaks_ready", "stores_record_standing_waits",
     "release_clears", "announce_on_finished_records_nothing", "announce_alone_left_an_edge_on_finished", "blocking_spec", "blocking_spec_sql", "prefix_facts", "mem_blocking_eq_sql_blocking",
     "mem_sql_diverge_without_premise", "final_not_available",
+    # Props/C09Announce.lean: check-then-announce of a reader against status-then-release of the finisher, all interleavings
+    "inv_step", "repaired_no_stale_edge", "repaired_tracks_open_wait", "announce_only_leaves_stale_edge", "programs_follow_the_model",
     # part B
     "wfb_sound", "progress_enabled", "step_decreases", "tree_completes", "deadlock_if_waiting_counts_busy",
 ]
@@ -764,7 +767,12 @@ def result_api(ctx: Ctx) -> None:
 
 
 def run(ctx: Ctx) -> None:
-    lean_stage(ctx, tr.gen, THEOREMS)
+    def gen() -> dict[str, str]:
+        g = tr.gen()
+        g.update(trp.gen(ctx.tmp))
+        return g
+
+    lean_stage(ctx, gen, THEOREMS)
     drv = LeanDriver()
     ctx.cov["rule"] = (
         "A: distinct (family, history) pairs — every history contains at least one wait declaration or release and is "
